@@ -551,7 +551,16 @@ impl Story {
                             sorted.sort_by(|a, b| InkList::cmp_items(b, a));
                             let random_item = sorted[list_item_index]; // Origin list is simply the origin of the one element
                             let mut new_list = InkList::from_single_origin(
-                                random_item.0.get_origin_name().unwrap().clone(),
+                                random_item
+                                    .0
+                                    .get_origin_name()
+                                    .ok_or_else(|| {
+                                        StoryError::InvalidStoryState(
+                                            "LIST_RANDOM: list item without an origin list"
+                                                .to_owned(),
+                                        )
+                                    })?
+                                    .clone(),
                                 self.list_definitions.as_ref(),
                             )?;
                             new_list.items.insert(random_item.0.clone(), *random_item.1);
